@@ -37,6 +37,25 @@ Proof. exact unfold_4_21. Qed.
 Print Assumptions C16_unfold_example.
 
 
+(* ---- the mutation-configuration code of phasegen/distributions.py (_get_P, get_mutation_config, get_mutation_configs, _get_configs,
+   _unfold) and StateSpace._get_partitions, PINNED in gen/MutationGen.v and re-checked against the source on every run by
+   translate/mutation2coq.py; the reading of the pinned text is the model ---- *)
+From PG Require Import gen.MutationGen proofs.GenMutationEquiv.
+Theorem C16_distributions_py_unfolded_configurations : forall n k v, (2 <= n)%nat ->
+  (In v (UnfoldedSFSDistribution_get_configs n k) <-> length v = (n - 1)%nat /\ sum_nat v = k).
+Proof. exact gen_unfolded_configs_spec. Qed.
+Print Assumptions C16_distributions_py_unfolded_configurations.
+
+Theorem C16_distributions_py_folded_configurations : forall n k v, (2 <= n)%nat ->
+  (In v (FoldedSFSDistribution_get_configs n k) <-> length v = (n / 2)%nat /\ sum_nat v = k).
+Proof. exact gen_folded_configs_spec. Qed.
+Print Assumptions C16_distributions_py_folded_configurations.
+
+Theorem C16_distributions_py_unfold_is_fibre : forall n config u, (2 <= n)%nat -> length config = (n / 2)%nat ->
+  (In u (FoldedSFSDistribution_unfold n config) <-> length u = (n - 1)%nat /\ fold_config n u = config).
+Proof. exact gen_unfold_is_fibre. Qed.
+Print Assumptions C16_distributions_py_unfold_is_fibre.
+
 From mathcomp Require Import all_ssreflect all_algebra.
 Set Implicit Arguments. Unset Strict Implicit. Unset Printing Implicit Defensive.
 Import GRing.Theory.
